@@ -33,8 +33,8 @@ SETTINGS = [dict(integer_positions=True, comm="prop"), dict(integer_positions=Fa
 
 def plan(tier):
     q = tier == "quick"
-    return [dict(unit="iso", n=100 if q else 4000, builds=["py", "so"], case_timeout=300),
-            dict(unit="hashseed", n=6 if q else 160, builds=["py", "so"], case_timeout=900, chunk=1)]
+    return [dict(unit="iso", n=100 if q else 2500, builds=["py", "so"], case_timeout=300),
+            dict(unit="hashseed", n=6 if q else 100, builds=["py", "so"], case_timeout=900, chunk=1)]
 
 
 def floors(tier):
